@@ -83,11 +83,16 @@ def run(tier):
     if pn.returncode not in (0, 7):
         p = pn
     # the same backends with embedder-provided per-thread records (RLBOX_EMBEDDER_PROVIDES_TLS_STATIC_VARIABLES)
+    import callscommon as cc
+    glib = cc.build_guestlibs()[0]
     for nm, flags, sp in (("thr_driver_noop_etls", ["-DBK_NOOP", "-DTLS_EMBEDDER"], npath),
-                          ("thr_driver_etls", ["-DTLS_EMBEDDER"], spath)):
-        d = vp.build(nm, ["thr_driver.cpp"], flags)
+                          ("thr_driver_etls", ["-DTLS_EMBEDDER"], spath),
+                          # the bundled dylib backend (statically linked guest), library and embedder TLS
+                          ("thr_driver_dylib", ["-DBK_DYLIB"], npath),
+                          ("thr_driver_dylib_etls", ["-DBK_DYLIB", "-DTLS_EMBEDDER"], npath)):
+        d = vp.build(nm, ["thr_driver.cpp"], flags, "-O1", ["-ldl"] if "dylib" in nm else [])
         te = os.path.join(wd, nm + ".ndjson")
-        pe = vp.run(["timeout", "900", d, sp, te], timeout=1000)
+        pe = vp.run(["timeout", "900", d, sp, te] + ([glib] if "dylib" in nm else []), timeout=1000)
         events += vp.read_ndjson(te)
         if pe.returncode not in (0, 7):
             vp.log("%s rc=%d" % (nm, pe.returncode))
